@@ -111,9 +111,10 @@ class Case(object):
     nontrivial : counted in distinct_nontrivial
     tags    : strings counted into the input distribution"""
 
-    def __init__(self, stream, payload, call, impl, oracle=None, domain=True, nontrivial=True, tags=()):
+    def __init__(self, stream, payload, call, impl, oracle=None, domain=True, nontrivial=True, tags=(), canon=None):
         self.stream, self.payload, self.call, self.impl = stream, payload, call, impl
         self.oracle, self.domain, self.nontrivial, self.tags = oracle, domain, nontrivial, tuple(tags)
+        self.canon = canon      # optional projection applied to both answers before comparing (the property's observable)
 
     def key(self):
         return hashlib.sha1(json.dumps([self.stream, self.payload], sort_keys=True, default=str).encode()).hexdigest()
@@ -331,7 +332,8 @@ def run_property(prop, tier, seed, replay=None):
         model_answers = [None] * len(idx)
     disagreements, informational = [], []
     for i, ma in zip(idx, model_answers):
-        if ma != answers[i]:
+        cn = cases[i].canon
+        if (cn(ma) if (cn and ma is not None) else ma) != (cn(answers[i]) if cn else answers[i]):
             rec = {"stream": cases[i].stream, "payload": cases[i].payload, "impl": answers[i], "model": ma}
             (disagreements if cases[i].domain else informational).append(rec)
     # ---- oracle on the implementation
